@@ -168,21 +168,66 @@ Proof.
   - cbn [skipn app]. apply IH. cbn [length] in Hi. lia.
 Qed.
 
-(** with the drawing [before] (no '#') followed by a legend in the documented form, the cell
-    buffer is the one of [before] alone and its styles are the entries *)
+(** ** the legend is read with CRLF taken as LF (repair F13) *)
+Definition cr_free (l : list Z) : Prop := Forall (fun c => c <> 13) l.
+Lemma uncrlf_aux_free a : cr_free a -> forall rest, uncrlf_aux false (a ++ rest) = a ++ uncrlf_aux false rest.
+Proof.
+  induction 1 as [|c t Hc Ft IH]; intros rest; cbn [app uncrlf_aux]; [reflexivity|].
+  replace (c =? 13) with false by (symmetry; apply Z.eqb_neq; exact Hc). destruct (Z.eqb_spec c 10) as [->|N]; rewrite IH; reflexivity.
+Qed.
+Lemma uncrlf_free a : cr_free a -> uncrlf a = a.
+Proof. intros F. unfold uncrlf. rewrite <- (app_nil_r a) at 1. rewrite (uncrlf_aux_free a F []). cbn [uncrlf_aux]. apply app_nil_r. Qed.
+Lemma uncrlf_eol rest : uncrlf_aux false ([13; 10] ++ rest) = [10] ++ uncrlf_aux false rest.
+Proof. reflexivity. Qed.
+Lemma uncrlf_eol_ok eol rest : eol_ok eol -> uncrlf_aux false (eol ++ rest) = [10] ++ uncrlf_aux false rest.
+Proof. intros [-> | ->]; reflexivity. Qed.
+
+Lemma cr_free_app a b : cr_free a -> cr_free b -> cr_free (a ++ b).
+Proof. intros; apply Forall_app; split; assumption. Qed.
+Lemma ident_cr_free n : is_ident n -> cr_free n.
+Proof.
+  destruct n as [|c t]; [intros []|]. intros [Hc Ft]. constructor.
+  - intros ->. vm_compute in Hc. discriminate.
+  - eapply Forall_impl; [|exact Ft]. cbn. intros x Hx ->. vm_compute in Hx. discriminate.
+Qed.
+Lemma blank_cr_free b : blank_run b -> cr_free b.
+Proof. intros F. eapply Forall_impl; [|exact F]. cbn. intros x Hx ->. vm_compute in Hx. discriminate. Qed.
+Lemma entry_cr_free e t : is_ident (fst e) -> cr_free (snd e) -> blank_run t -> cr_free (entry_src e t).
+Proof.
+  intros I D T. unfold entry_src. repeat apply cr_free_app; try (apply ident_cr_free; exact I); try exact D; try (apply blank_cr_free; exact T);
+    repeat constructor; discriminate.
+Qed.
+Lemma uncrlf_more eol es : eol_ok eol ->
+  Forall (fun et => is_ident (fst (fst et)) /\ cr_free (snd (fst et)) /\ blank_run (snd et)) es ->
+  uncrlf_aux false (more_src eol es) = more_src [10] es.
+Proof.
+  intros E F. induction F as [|[e t] r [I [D T]] Fr IH]; cbn [more_src]; [reflexivity|].
+  rewrite (uncrlf_eol_ok eol _ E). cbn [fst snd] in *. rewrite (uncrlf_aux_free _ (entry_cr_free e t I D T)), IH. reflexivity.
+Qed.
+
+(** with the drawing [before] (no '#') followed by a legend in the documented form, with either
+    line end, the cell buffer is the one of [before] alone and its styles are the entries *)
 Theorem cellbuffer_with_legend before eol e0 t0 es :
   Forall (fun c => c <> 35) before -> eol_ok eol ->
-  is_ident (fst e0) -> no_brace (snd e0) -> blank_run t0 ->
+  is_ident (fst e0) -> no_brace (snd e0) -> cr_free (snd e0) -> blank_run t0 ->
   Forall (fun et => is_ident (fst (fst et)) /\ no_brace (snd (fst et)) /\ blank_run (snd et)) es ->
+  Forall (fun et => cr_free (snd (fst et))) es ->
   cellbuffer_from (before ++ header_src [] [32] [] eol ++ entry_src e0 t0 ++ more_src eol es)
   = cellbuffer_of_text before (e0 :: map fst es).
 Proof.
-  intros Fb E I N T0 F. unfold cellbuffer_from.
+  intros Fb E I N D0 T0 F FD. unfold cellbuffer_from.
   assert (Hsplit : header_src [] [32] [] eol ++ entry_src e0 t0 ++ more_src eol es
                    = LEGEND_MARK ++ (eol ++ entry_src e0 t0 ++ more_src eol es)).
   { unfold header_src, LEGEND_MARK, LEGEND. cbn [app]. reflexivity. }
   rewrite Hsplit.
   rewrite (find_sub_first LEGEND_MARK before _ [] (no_hash_no_header before _ Fb)). cbn [rev app].
-  rewrite <- Hsplit.
-  rewrite (legend_roundtrip [] [32] [] eol e0 t0 es); auto; try constructor; try reflexivity; constructor.
+  assert (U : uncrlf (LEGEND_MARK ++ eol ++ entry_src e0 t0 ++ more_src eol es)
+              = header_src [] [32] [] [10] ++ entry_src e0 t0 ++ more_src [10] es).
+  { unfold uncrlf. rewrite (uncrlf_aux_free LEGEND_MARK) by (unfold LEGEND_MARK; repeat constructor; discriminate).
+    rewrite (uncrlf_eol_ok eol _ E). rewrite (uncrlf_aux_free _ (entry_cr_free e0 t0 I D0 T0)).
+    rewrite (uncrlf_more eol es E).
+    - unfold header_src, LEGEND_MARK, LEGEND. cbn [app]. reflexivity.
+    - apply Forall_forall. intros et Het. rewrite Forall_forall in F, FD. destruct (F et Het) as [A [_ B]]. repeat split; auto. }
+  rewrite U.
+  rewrite (legend_roundtrip [] [32] [] [10] e0 t0 es); auto; try constructor; try reflexivity; constructor.
 Qed.
